@@ -131,6 +131,11 @@ OnMark(s, e) ==
     THEN LET r == [proc |-> Proc(e.task), res |-> e.res, code |-> e.code, failed |-> s.failed, child |-> s.child]
              s1 == [s EXCEPT !.returns = Append(@, r)]
          IN  IF e.task # 1 /\ ~e.execd THEN [s1 EXCEPT !.child = "escaped"] ELSE s1
+    ELSE IF e.kind = "alloc"
+    THEN \* the forked child entered the allocator before exec / exit: between fork and exec only
+         \* async-signal-safe steps are allowed (another thread of the caller may hold the allocator's
+         \* lock at the fork: the child would block for ever and spawn would return in no process)
+         IF e.task # 1 /\ ~e.execd THEN Anomaly(s, "ChildEntersAllocatorAfterFork") ELSE s
     ELSE IF e.kind = "pre"
     THEN \* closure idx ran (in whichever task); its configured result decides whether the step failed
          LET code == s.c.pre[e.idx]
